@@ -33,6 +33,29 @@ Theorem recompute_on_factor_workers : forall fw sl saved compute r n,
   compute = true /\ existsb (fun l => Nat.eqb (l_name l) n) (sl r) = true /\ fw r n = r /\ exists f, dict_get saved n = Some f.
 Proof. exact recomputes_iff. Qed.
 
+(* model-parallel degree 1 (every rank of a stage gathers and inverts its own layers: factor_worker r n = r) and
+   factors replicated over the stage (C02 / C11): saving and then loading into freshly constructed, empty
+   preconditioners gives every rank back exactly the factors it held; with compute_inverses every rank recomputes its
+   second-order data from them - the resumed state is the saved one (then C09's resume theorems apply per rank) *)
+Theorem neox_resume_restores_m1 : forall W sl held fw, wf_world W sl ->
+  (forall r l, r < W -> In l (sl r) -> fw r (l_name l) = r /\ l_inv l < W /\ In l (sl (l_inv l))) ->
+  (forall r l, r < W -> In l (sl r) -> held r (l_name l) = held (l_inv l) (l_name l) /\ held r (l_name l) <> None) ->
+  forall r l, r < W -> In l (sl r) ->
+    load fw sl (gathered W sl held) (fun _ _ => None) r (l_name l) = held r (l_name l) /\
+    recomputes fw sl (gathered W sl held) true r (l_name l) = true.
+Proof.
+  intros W sl held fw Hwf Hm1 Hrep r l Hr Hl.
+  destruct (Hm1 r l Hr Hl) as (Hfw & Hiw & Hown). destruct (Hrep r l Hr Hl) as (Heq & Hne).
+  destruct (held r (l_name l)) as [f|] eqn:Ef; [|congruence].
+  assert (Hg : dict_get (gathered W sl held) (l_name l) = Some f).
+  { apply (gathered_state_complete_l W sl held r l f Hwf Hr Hl Hiw Hown). now rewrite <- Heq. }
+  assert (Hex : existsb (fun l0 => Nat.eqb (l_name l0) (l_name l)) (sl r) = true).
+  { apply existsb_exists. exists l. split; [exact Hl|apply Nat.eqb_refl]. }
+  split.
+  - exact (proj1 (load_restores_on_factor_workers_l fw sl _ (fun _ _ => None) r (l_name l) f Hg) Hex Hfw).
+  - apply recomputes_iff. repeat split; try assumption. now exists f.
+Qed.
+
 (* M > 1: ranks of a stage that are not factor workers keep what they had (for a
    freshly constructed preconditioner: nothing), so a factor that every model-parallel
    peer maintains is NOT restored there: resuming is not equivalent (known finding D7) *)
@@ -47,3 +70,4 @@ Print Assumptions gathered_state_sound.
 Print Assumptions dir_one_file_per_layer.
 Print Assumptions load_restores_on_factor_workers.
 Print Assumptions recompute_on_factor_workers.
+Print Assumptions neox_resume_restores_m1.
